@@ -29,6 +29,64 @@ def condEvalVec {α β} [Add α] [Mul α] [Div α] [OfNat α 1]
     (xs gs : List α) : List β :=
   List.zipWith (condEval template specs) xs gs
 
+/-! ### the conditional rational double — this is what the driver runs
+
+`harness/doubles.py` builds `ConditionalDistribution(RatDist(...), {"s": dep_s, "l": dep_l})` where a
+parameter described by the token `c a` is a FIXED parameter of the template instance and every other
+description is a real `DependenceFunction`. The three functions below are that object's
+`cdf`/`icdf`/`pdf` expressed with `condEval`; `Drv/Hier.lean` (`cdfOf`, `qOf`, `pdfOf`, conditioned
+case) and the `cond` op of `Drv/C08.lean` call them. -/
+
+/-- how the doubles' description of a parameter reaches `ConditionalDistribution`: a constant is a
+fixed parameter, everything else a dependence function -/
+def ParSpec.ofDep {α} : DepFn α → ParSpec α
+  | .const a => .fixed a
+  | d => .dep d
+
+/-- `(name, spec)` in the template's parameter order `s`, `l` -/
+def ratParSpecs {α} (spec : RatSpec α) : List (String × ParSpec α) :=
+  [("s", ParSpec.ofDep spec.s), ("l", ParSpec.ofDep spec.l)]
+
+/-- the template family `RatDist` called with keyword arguments: the method `m s l x` of the instance
+constructed from the keywords `s` and `l`; `none` (a `TypeError` in Python) when one is missing -/
+def ratTemplate {α β} (m : α → α → α → β) (kw : List (String × α)) (x : α) : Option β :=
+  match kw.lookup "s", kw.lookup "l" with
+  | some s, some l => some (m s l x)
+  | _, _ => none
+
+/-- a method of the conditional rational double at one `(x, given)` -/
+def ratCond {α β} [Add α] [Mul α] [Div α] [OfNat α 1]
+    (m : α → α → α → β) (spec : RatSpec α) (x g : α) : Option β :=
+  condEval (ratTemplate m) (ratParSpecs spec) x g
+
+/-- … at many pairs in one (vectorised) call -/
+def ratCondVec {α β} [Add α] [Mul α] [Div α] [OfNat α 1]
+    (m : α → α → α → β) (spec : RatSpec α) (xs gs : List α) : List (Option β) :=
+  condEvalVec (ratTemplate m) (ratParSpecs spec) xs gs
+
+/-! ### evaluation of nested dependence functions with a call log -/
+
+/-- `DepFn.eval` instrumented: the value together with the list of calls `(inner function, argument)`
+made to inner dependence functions at every depth (in call order). `evalLog_value` (C08) shows that
+the first component IS `DepFn.eval`, the function the driver runs. -/
+def DepFn.evalLog {α} [Add α] [Mul α] [Div α] [OfNat α 1] : DepFn α → α → α × List (DepFn α × α)
+  | .const a, _ => (a, [])
+  | .affine a b, x => (a + b * x, [])
+  | .asym a b c, x => (a + b / (1 + c * x), [])
+  | .chained a b d, x =>
+    let r := d.evalLog x
+    ((a + b * x) / r.1, (d, x) :: r.2)
+  | .ratio a n d, x =>
+    let rn := n.evalLog x
+    let rd := d.evalLog x
+    ((a + rn.1) / rd.1, (n, x) :: rn.2 ++ (d, x) :: rd.2)
+
+/-- all strict sub-functions of a dependence function -/
+def DepFn.inner {α} : DepFn α → List (DepFn α)
+  | .chained _ _ d => d :: d.inner
+  | .ratio _ n d => n :: n.inner ++ d :: d.inner
+  | _ => []
+
 /-! ### keyword binding of dependent dependence functions -/
 
 /-- `DependenceFunction.__init__` binds every dependence-function-valued keyword with
